@@ -970,6 +970,88 @@ def rule_r13(F):
     return r
 
 
+RESTORERS = ("truncate", "pop", "clear", "drain", "split_off", "set_len")
+READERS = ("clone", "to_vec", "iter", "as_slice", "extend_from_slice", "last", "first", "concat", "join", "index", "deref", "to_owned", "get")
+
+
+def prefix_discipline(bodies):
+    """Generic: a `&mut Vec<..>` parameter that a function both pushes to and reads (the shared prefix of a walk over nested lists:
+    what was pushed for one item must be gone before the next item) is restored - truncate / pop - on every path from a push to a
+    return of that function.  Returns (instances, violations) as lists of (body, line, text)."""
+    inst, bad = [], []
+    for b in bodies:
+        if not b.mir or "{closure" in b.path:
+            continue
+        locs = b.mir["locals"]
+        argc = b.mir.get("argc", 0)
+        cand = [i for i in range(1, argc + 1) if str(locs[i].get("ty") or "").startswith("&mut std::vec::Vec<")]
+        if not cand:
+            continue
+        defs = mir.Defs(b)
+
+        def on(t, p):
+            a0 = t["args"][0] if t["args"] else None
+            if not mir.is_place_op(a0):
+                return False
+            k = mir.origin_key(b, defs, a0[1])
+            return k == "arg%d" % p or k.startswith("arg%d." % p) or k.startswith("arg%d*" % p)
+        rets = [bi for bi, blk in enumerate(b.blocks) if blk["term"]["k"] == "return"]
+        for p in cand:
+            pushes, reads, restores = [], [], []
+            for bi, t in mir.calls(b):
+                n = hir.last(mir.callee_def(t) or "")
+                if not on(t, p):
+                    continue
+                if n == "push":
+                    pushes.append(bi)
+                elif n in RESTORERS:
+                    restores.append(bi)
+                elif n in READERS:
+                    reads.append(bi)
+            if not pushes or not reads:
+                continue
+            leaks = []
+            for pb in pushes:
+                seen, work = set(), list(mir.succs(b.blocks[pb]))
+                while work:
+                    x = work.pop()
+                    if x in seen or x in restores:
+                        continue
+                    seen.add(x)
+                    if x in rets:
+                        leaks.append(pb)
+                        break
+                    work.extend(mir.succs(b.blocks[x]))
+            inst.append((b, b.line, "%s: prefix parameter #%d (pushes %d, restores %d)" % (b.path, p, len(pushes), len(restores))))
+            if leaks:
+                bad.append((b, b.blocks[leaks[0]]["term"].get("line") or b.line,
+                            "%s pushes onto the shared prefix `%s` and can return without taking it off again" % (hir.last(b.path), locs[p].get("name") or "arg%d" % p)))
+    return inst, bad
+
+
+def rule_r14(F, FM=None):
+    """Nested lists of paths (`import a.{b.{c, d}, e}`; `use geo::{metric::km, scale}` in `library!`): every item gets the segments
+    written before ITS list, nothing of its earlier siblings.  The walkers of the reference tree build each item's prefix afresh;
+    where a shared mutable prefix is used instead, it must be restored on every path (search rule, canary-backed)."""
+    r = RuleResult("C13.R14", "nested path lists: a shared prefix stack is restored on every path (no segment of an earlier sibling leaks into a later one)", floor=0)
+    bodies = [b for b in F.bodies_in(["src/parser/expr.rs", "src/parser/mod.rs", "src/runtime/mod.rs", "src/runtime/items.rs"]) if b.mir]
+    if FM is not None:
+        bodies += [b for b in FM.all_bodies() if b.mir]
+    inst, bad = prefix_discipline(bodies)
+    r.inst("bodies searched", {"bodies": len(bodies), "shared_prefix_parameters": [t for _, _, t in inst]})
+    for b, ln, text in bad:
+        r.bad(b.path, "prefix not restored", relfile(b.file), ln,
+              text + ": the segments written before a nested sub-list stay on the prefix, so a later item of the enclosing list is resolved below the wrong module "
+              "(`import foo.{a.{x, y}, b}` imports `foo.a.b`)")
+    return r
+
+
+def canary(C):
+    bodies = [b for b in C.all_bodies() if b.mir]
+    inst, bad = prefix_discipline(bodies)
+    return [{"rule": "C13.R14", "fired": ["%s" % b.path for b, _, _ in bad], "expect_min": 1, "expect_absent": ["tree_balanced", "collect"]}]
+
+
 def rules(ctx):
     F = ctx["F"]
-    return [rule_r1(F), rule_r2(F), rule_r3(F), rule_r4(F), rule_r5(F), rule_r6(F), rule_r7(F), rule_r8(F), rule_r9(F), rule_r10(F), rule_r11(F), rule_r12(F), rule_r13(F)]
+    return [rule_r1(F), rule_r2(F), rule_r3(F), rule_r4(F), rule_r5(F), rule_r6(F), rule_r7(F), rule_r8(F), rule_r9(F), rule_r10(F), rule_r11(F), rule_r12(F), rule_r13(F), rule_r14(F, ctx.get("FM"))]
